@@ -8,14 +8,14 @@ from vf import instrument as I
 from vf.core import digest
 from vf.gen import gen_data
 from vf.models import convert as CV
-from vf.spec import INDEX_KINDS, S, build, make_frame, make_index, short
+from vf.spec import INDEX_KINDS, TIED_INDEX_KINDS, S, build, make_frame, make_index, short
 
-SHARDS = {"quick": 6, "thorough": 16}
+SHARDS = {"quick": 16, "thorough": 16}
 WATCHDOG = {"quick": 1200, "thorough": 7200}
 ZOO_CASES = {"quick": 50, "thorough": 400}
 FLOORS = {
-    "quick": {"distinct_nontrivial": 3000, "handbuilt_outputs": 5000, "K2_evaluations": 150,
-              "zoo_with_events": 60, "zoo_nondefault_index_with_events": 30},
+    "quick": {"distinct_nontrivial": 9800, "handbuilt_outputs": 11000, "K2_evaluations": 420,
+              "zoo_with_events": 260, "zoo_nondefault_index_with_events": 220},
     "thorough": {"distinct_nontrivial": 30000, "K2_evaluations": 1500},
 }
 ANCHORS = [
@@ -182,7 +182,7 @@ def zoo_recipe(rng, tier):
     kind = ["mean_changes", "spikes", "collective", "small_alphabet", "piecewise_const",
             "noise"][int(rng.integers(6))]
     X, _ = gen_data(rng, n, p, kind)
-    return {"kind": "zoo", "det": spec, "X": X, "index": INDEX_KINDS[int(rng.integers(5))],
+    return {"kind": "zoo", "det": spec, "X": X, "index": (INDEX_KINDS + TIED_INDEX_KINDS)[int(rng.integers(7))],
             "columns": ["default", "strings", "duplicate", "printsame"][int(rng.integers(4))]}
 
 
